@@ -262,7 +262,8 @@ func findRefSegMetaFromTime(a *asset, rep *RepData, time uint64, cfg *ResponseCo
 	dur := uint32(refRep.Segments[relNr].EndTime - refRep.Segments[relNr].StartTime)
 
 	// Check interval validity
-	segAvailTimeS := float64(refEndTime) / float64(refRep.MediaTimescale)
+	mediaRef := uint64(cfg.StartTimeS) * uint64(refRep.MediaTimescale) // media time 0 is the configured start time
+	segAvailTimeS := float64(refEndTime+mediaRef) / float64(refRep.MediaTimescale)
 	nowS := float64(nowMS) * 0.001
 	err := CheckTimeValidity(segAvailTimeS, nowS, float64(*cfg.TimeShiftBufferDepthS), cfg.getAvailabilityTimeOffsetS())
 	if err != nil {
